@@ -1055,15 +1055,41 @@ rc::Gen<Scenario> genFrom(Scenario (*expand)(int64_t)) {
 }
 #endif
 
+#ifndef VERIF_ENGINE_FUZZ
+// Seed-corpus writer (maintenance aid, off unless VERIF_C17_DUMP_DIR is set): stores non-trivial generated cases in the
+// byte encoding understood by verif::default_decode, for corpus/C17/tree/.
+void dumpSeed(const Scenario &s, const std::vector<int> &arity) {
+  static const char *dir = getenv("VERIF_C17_DUMP_DIR");
+  static int written = 0;
+  if (!dir || written >= 48) return;
+  std::string b;
+  for (auto &op : s.ops) {
+    b += (char)op.code;
+    for (int k = 0; k < arity[op.code]; ++k) {
+      int64_t v = op.arg(k);
+      if (v >= 0 && v < 128) { b += (char)v; continue; }
+      uint64_t u = v < 0 ? 0 - (uint64_t)v : (uint64_t)v; int n = 1; while (n < 8 && (u >> (8 * n))) ++n;
+      b += (char)(0x80 | ((n - 1) << 4) | (v < 0 ? 1 : 0));
+      for (int j = n - 1; j >= 0; --j) b += (char)(u >> (8 * j));
+    }
+  }
+  if (b.size() > 500) return;
+  char name[600]; snprintf(name, sizeof name, "%s/gen-%016llx.bin", dir, (unsigned long long)fnv1a(b));
+  write_file(name, b); ++written;
+}
+#endif
+
 const std::vector<const char *> kOpNames = {"cfg", "node", "ctl", "ctlev", "ctlcb", "adv", "pre", "pp"};
 const std::vector<int> kOpArity = {3, 6, 3, 4, 2, 2, 3, 3};
 
 SubDef defTree = [] {
   SubDef d; d.name = "tree"; d.op_names = kOpNames; d.op_arity = kOpArity;
   d.nt_rule = "tree of depth >= 3 with a Parallel and a serial composite, and a control call placed in the pass between a child's finish and its parent's handling of it, or a reset followed by a re-run that started leaves";
-  d.run = runTree;
 #ifndef VERIF_ENGINE_FUZZ
+  d.run = [](const Scenario &s, CaseInfo &info) { std::string e = runTree(s, info); if (e.empty() && info.nontrivial) dumpSeed(s, kOpArity); return e; };
   d.gen = [] { return genFrom(expandTree); };
+#else
+  d.run = runTree;
 #endif
   return d;
 }();
